@@ -1,16 +1,21 @@
 /-
-  Torf.Model.Export — the conversion half of every export (C07/C17's own minimal copy; another
-  builder writes Torf/Model/Bencode.lean + Codec.lean at the same time, to be reconciled):
+  Torf.Model.Export — the conversion half of every export, for C07/C17.
 
-  * `encodeValue / encodeList / encodeDict`  = torf/_utils.py:779-813 (`encode_value`, …)
-  * `ser`                                    = flatbencode.encode (dependency, modelled in full)
-  * `ErrKind`                                = the error kinds C07/C17 distinguish
+  Reconciled with the bencode layer of C05/C06: there is *one* model of `flatbencode.encode`
+  (`Torf.Bencode.ser`, `Torf.Bencode.serOk`) and *one* model of `utils.encode_value/…`
+  (`Torf.Codec.encodeValue`); this file only re-types their results with the error kinds that
+  C07/C17 distinguish:
+
+  * `encodeValue / encodeDict` = torf/_utils.py:779-813 (`encode_value`, `encode_dict`)
+  * `ser`                      = flatbencode.encode, including CPython's 4300-digit int→str limit
+  * `ErrKind`                  = the error kinds C07/C17 distinguish
 
   Where Python raises, the model returns an error value: `.value` is `ValueError` (which
   `convert()`/`dump()`/`infohash` turn into MetainfoError), `.internal t` is any exception type
   the library does not document for the entry point.
 -/
 import Torf.Base.PyVal
+import Torf.Model.Codec
 namespace Torf.Export
 open Torf
 
@@ -24,126 +29,33 @@ deriving DecidableEq, Repr, Inhabited
 abbrev Bytes := List UInt8
 
 /-- bencode values: what `encode_value` produces and `flatbencode.encode` accepts -/
-inductive BVal where
-  | int (i : Int)
-  | bytes (b : Bytes)
-  | list (l : List BVal)
-  | dict (kvs : List (Bytes × BVal))
-deriving Repr, Inhabited
+abbrev BVal := Torf.Bencode.BVal
 
 /-- `str.encode('utf8')` -/
-def utf8 (s : String) : Bytes := s.toUTF8.toList
+def utf8 (s : String) : Bytes := Codec.utf8Enc s
 
-/-- lexicographic `<=` on byte strings (Python `bytes.__le__`) -/
-def bytesLe : Bytes → Bytes → Bool
-  | [], _ => true
-  | _ :: _, [] => false
-  | a :: as, b :: bs => if a < b then true else if b < a then false else bytesLe as bs
-
-def allKeysStr : List (PyVal × PyVal) → Bool
-  | [] => true
-  | (.str _, _) :: r => allKeysStr r
-  | _ :: _ => false
-
-/-- Python `sorted(dct.items())` after the key check: all keys are `str` and pairwise distinct
-    (they come from a dict), so tuple comparison is decided by the keys alone; `str` is ordered
-    by code points = Lean's `String` order. -/
-def sortItems (xs : List (String × BVal)) : List (String × BVal) :=
-  xs.mergeSort (fun a b => decide (a.1 ≤ b.1))
-
-mutual
 /-- `encode_value`: `type(value) in (bytes, int)` first, then the converter table in its order
-    (str, float, bool, Mapping, Sequence, Collection, datetime), else ValueError. -/
-def encodeValue : PyVal → Except ErrKind BVal
-  | .bytes b => pure (.bytes b)
-  | .int i => pure (.int i)
-  | .str s => pure (.bytes (utf8 s))
-  | .float .nan => throw .value                      -- int(nan): ValueError
-  | .float .pinf => throw .value                     -- OverflowError, re-raised as ValueError
-  | .float .ninf => throw .value
-  | .float (.fin t _ _) => pure (.int t)             -- int(f) truncates
-  | .bool b => pure (.int (if b then 1 else 0))
-  | .dict kvs =>
-      -- encode_dict: every key is checked before anything is converted
-      if allKeysStr kvs then do
-        let items ← encodeItems kvs
-        pure (.dict ((sortItems items).map fun (k, v) => (utf8 k, v)))
-      else throw .value
-  | .list l => do pure (.list (← encodeList l))
-  | .tuple l => do pure (.list (← encodeList l))
-  | .datetime (some ts) => pure (.int ts)
-  | .datetime none => throw .value                   -- timestamp() raised Overflow/OS/ValueError
-  | .none => throw .value
-  | .other _ => throw .value
-def encodeList : List PyVal → Except ErrKind (List BVal)
-  | [] => pure []
-  | v :: r => do
-    let v' ← encodeValue v
-    let r' ← encodeList r
-    pure (v' :: r')
-/-- the values of a dict whose keys are all `str`.  (Python converts the values in sorted key
-    order; every failure is a ValueError, so the order of conversion cannot be observed.) -/
-def encodeItems : List (PyVal × PyVal) → Except ErrKind (List (String × BVal))
-  | [] => pure []
-  | (k, v) :: r => do
-    let v' ← encodeValue v
-    let r' ← encodeItems r
-    match k with
-    | .str s => pure ((s, v') :: r')
-    | _ => throw .value
-end
+    (str, float, bool, Mapping, Sequence, Collection, datetime), else ValueError; `encode_dict`
+    checks that every key is a `str` and sorts the items.  Every failure is a ValueError. -/
+def encodeValue (v : PyVal) : Except ErrKind BVal :=
+  match Codec.encodeValue v with
+  | .ok b => .ok b
+  | .error _ => .error .value
 
 /-- `encode_dict(dct)` for the items of a Python dict -/
 def encodeDict (kvs : List (PyVal × PyVal)) : Except ErrKind BVal := encodeValue (.dict kvs)
 
-/-! ### flatbencode.encode -/
-
-def digitChar (d : Nat) : UInt8 := UInt8.ofNat (48 + d)
-
-/-- decimal digits of `n`, most significant first (`str(n).encode('ascii')` for `n ≥ 0`) -/
-def natDigitsAux : Nat → Nat → Bytes → Bytes
-  | 0, _, acc => acc
-  | fuel + 1, n, acc =>
-    if n < 10 then digitChar n :: acc else natDigitsAux fuel (n / 10) (digitChar (n % 10) :: acc)
-
-def natDigits (n : Nat) : Bytes := natDigitsAux (n + 1) n []
-
-def intDigits (i : Int) : Bytes :=
-  if i < 0 then 45 :: natDigits i.natAbs else natDigits i.toNat
-
 /-- CPython's int→str conversion limit (`sys.get_int_max_str_digits()` = 4300) -/
-def maxStrDigits : Nat := 4300
+def maxStrDigits : Nat := Bencode.pyMaxDigits
 
 /-- `str(i)` raises ValueError -/
 def intTooBig (i : Int) : Bool := decide (10 ^ maxStrDigits ≤ i.natAbs)
 
-def sortSer (xs : List (Bytes × Bytes)) : List (Bytes × Bytes) :=
-  xs.mergeSort (fun a b => bytesLe a.1 b.1)
-
-mutual
 /-- `flatbencode.encode`: ints as `i<decimal>e`, strings as `<len>:<bytes>`, lists as `l…e`,
-    dicts as `d…e` with the keys in sorted (raw byte) order. -/
-def ser : BVal → Except ErrKind Bytes
-  | .int i => if intTooBig i then throw .value else pure (105 :: intDigits i ++ [101])
-  | .bytes b => pure (natDigits b.length ++ 58 :: b)
-  | .list l => do pure (108 :: (← serList l) ++ [101])
-  | .dict kvs => do
-    let items ← serItems kvs
-    pure (100 :: ((sortSer items).map fun (k, v) => natDigits k.length ++ 58 :: k ++ v).flatten ++ [101])
-def serList : List BVal → Except ErrKind Bytes
-  | [] => pure []
-  | v :: r => do
-    let a ← ser v
-    let b ← serList r
-    pure (a ++ b)
-/-- (key, serialised value) in the given order; `ser` sorts them by key afterwards -/
-def serItems : List (Bytes × BVal) → Except ErrKind (List (Bytes × Bytes))
-  | [] => pure []
-  | (k, v) :: r => do
-    let a ← ser v
-    let b ← serItems r
-    pure ((k, a) :: b)
-end
+    dicts as `d…e` with the keys in sorted (raw byte) order; `str(int)` raises ValueError for an
+    integer of more than 4300 digits. -/
+def ser (v : BVal) : Except ErrKind Bytes :=
+  if Bencode.serOk v then .ok (Bencode.ser v) else .error .value
 
 /-- ValueError ↦ MetainfoError (`convert()`, `dump()`, `infohash`) -/
 def valueToMetainfo : Except ErrKind α → Except ErrKind α
